@@ -202,6 +202,10 @@ def render(frame: dict):
     aff = frame.get("affine")
     if aff:
         data = float(aff[0]) + float(aff[1]) * data
+    if frame.get("dtype"):
+        # reduced-precision fields (images, compact storages): the field keeps its dtype
+        dt = np.dtype(frame["dtype"])
+        return ScalarField(grid, data.astype(dt), dtype=dt)
     return ScalarField(grid, data)
 
 
